@@ -40,6 +40,7 @@ func runC13(p *Prog, r *Report) {
 	c13DecodedArgument(p, r, "R13.7-decoded-argument")
 	c13EntityFieldFlow(p, r, "R13.8-entity-field-flow")
 	c13DecodersReplace(p, r, "R13.9-decoders-replace")
+	c13UIDRoundTrip(p, r, "R13.11-uid-round-trip")
 	checkTotalOrderComparatorsAs(p, r, "R13.4-stable-encoding-order")
 	c13CoercionExhaustive(p, r, "R13.10-coercion-exhaustive")
 	c13ImplicitEntity(p, r)
@@ -847,5 +848,68 @@ func c13CoercionExhaustive(p *Prog, r *Report, rule string) {
 	}
 	if n == 0 {
 		r.Undec(rule, "exptypes:type-switches", "-", "no switch over the resolved schema type found in x/exp/types")
+	}
+}
+
+// R13.11: entity UID codec by composition. Both spellings an EntityUID can be written in (the explicit `__entity` form of
+// EntityUID.MarshalJSON and the implicit {type,id} form of ImplicitlyMarshaledEntityUID.MarshalJSON) are decoded by
+// EntityUID.UnmarshalJSON back to the same type and id (field-provenance evaluation; members travel between the writer's
+// and the reader's struct by their JSON names).
+func c13UIDRoundTrip(p *Prog, r *Report, rule string) {
+	uid := p.namedType(pTypes, "EntityUID")
+	imp := p.namedType(pTypes, "ImplicitlyMarshaledEntityUID")
+	if uid == nil || imp == nil {
+		r.Anchor(rule, "types.EntityUID / ImplicitlyMarshaledEntityUID")
+		return
+	}
+	method := func(t types.Type, name string) *types.Func {
+		for _, tt := range []types.Type{t, types.NewPointer(t)} {
+			ms := types.NewMethodSet(tt)
+			for i := 0; i < ms.Len(); i++ {
+				if ms.At(i).Obj().Name() == name {
+					fo, _ := ms.At(i).Obj().(*types.Func)
+					return fo
+				}
+			}
+		}
+		return nil
+	}
+	dec := method(uid, "UnmarshalJSON")
+	for _, w := range []struct {
+		name string
+		t    *types.Named
+	}{{"explicit", uid}, {"implicit", imp}} {
+		enc := method(w.t, "MarshalJSON")
+		if enc == nil || dec == nil {
+			r.Anchor(rule, w.name+" MarshalJSON / EntityUID.UnmarshalJSON")
+			continue
+		}
+		outs := runForks(func() *sev { return newSev(p) }, func(s *sev) (tv, any) {
+			res := s.callFn(nil, &tFn{Obj: enc, Recv: &tSym{Name: "u", T: w.t}}, nil, false, nil)
+			t, ok := res.(*tTuple)
+			if !ok || len(t.Vs) != 2 {
+				s.abort("encoder result %s", res.ts())
+			}
+			dcell := &tcell{zeroOf(uid)}
+			derr := s.callFn(nil, &tFn{Obj: dec, Recv: &tPtr{dcell}, RecvCell: dcell}, []tv{t.Vs[0]}, false, nil)
+			return &tTuple{[]tv{dcell.v, derr}}, t.Vs[0]
+		})
+		for _, o := range outs {
+			cs := "types.EntityUID:" + w.name
+			if o.Abort != "" {
+				r.Undec(rule, cs, p.pos(dec.Pos()), "the "+w.name+" entity UID codec is outside the converter idioms the extraction understands: "+clip(o.Abort, 200))
+				continue
+			}
+			t := o.Result.(*tTuple)
+			if _, isNil := t.Vs[1].(tNil); !isNil {
+				r.Viol(rule, cs, p.pos(dec.Pos()), "EntityUID.UnmarshalJSON rejects what the "+w.name+" encoder writes")
+				continue
+			}
+			s := newSev(p)
+			s.refine, s.assume, s.looseNamed = o.Refine, o.Assume, true
+			diffs := s.identity(t.Vs[0], &tSym{Name: "u", T: uid}, nil)
+			r.Check(len(diffs) == 0, rule, cs, p.pos(dec.Pos()), "decode("+w.name+" encoding) = the same type and id [written: "+clip(o.State.(tv).ts(), 140)+"]",
+				"decoding the "+w.name+" encoding of an entity UID does not give the UID back: "+strings.Join(diffs, "; ")+" [written: "+clip(o.State.(tv).ts(), 160)+"; decoded: "+clip(t.Vs[0].ts(), 120)+"]")
+		}
 	}
 }
